@@ -136,6 +136,12 @@ Example C06_rfc_5_4 :
   /\ resolved_text true b "http:g" = txt "http://a/b/c/g".
 Proof. vm_compute. repeat split. discriminate. Qed.
 
+(* small scope: every text of at most 6 characters over "/.a:?@[" that the parser accepts yields an object
+   satisfying wf and one_kind (the hypotheses of C06_resolve / C06_authority are what parsing guarantees) *)
+Example C06_wf_of_parsed :
+  forallb parsed_wf (all_texts [47; 46; 97; 58; 63; 64; 91]%N 6) = true.
+Proof. vm_compute. reflexivity. Qed.
+
 (* the "/." guard is used: a host-less target whose path begins with "//" *)
 Example C06_guard_used :
   wf (uri_of "s:/a") = true /\ wf (uri_of "..//c") = true /\ corner_obj false (uri_of "..//c") (uri_of "s:/a") = false
